@@ -252,20 +252,28 @@ def _pickle_roundtrip(obj):
 
 
 class FakeQueue:
-    def __init__(self, sched: Sched, name: str = "q") -> None:
+    def __init__(self, sched: Sched, name: str = "q", maxsize: int = 0) -> None:
         self.s = sched
         self.items: list = []
         self.name = name
+        self.maxsize = int(maxsize or 0)
         self.nput = 0
         self.nget = 0
 
-    def put(self, item) -> None:
-        self.s.point(("put", self.name))
+    def put(self, item, block=True, timeout=None) -> None:
+        # a bounded queue blocks the producer while it is full
+        self.s.point(("put", self.name), lambda: [None] if (self.maxsize <= 0 or len(self.items) < self.maxsize) else [])
         self.items.append(_pickle_roundtrip(item))
         self.nput += 1
         self.s.emit(ev="put", q=self.name, n=self.nput, cls=_cls(item))
 
-    def get(self):
+    def qsize(self) -> int:
+        return len(self.items)
+
+    def empty(self) -> bool:
+        return not self.items
+
+    def get(self, block=True, timeout=None):
         self.s.point(("get", self.name), lambda: [None] if self.items else [])
         item = self.items.pop(0)
         self.nget += 1
@@ -292,9 +300,9 @@ class FakeManager:
     def __exit__(self, *a):
         return None
 
-    def Queue(self):
+    def Queue(self, maxsize=0):
         self.nq += 1
-        return FakeQueue(self.s, f"q{self.nq}")
+        return FakeQueue(self.s, f"q{self.nq}", maxsize)
 
 
 class FakeProcess:
